@@ -10,8 +10,10 @@
      the store key is the name alone); a loader whose get_source narrows its search by a keyword argument
      or by the render context ([aware] = true) uses both.  An edit replaces the text (new version).
    - A parsed template is a record: its name attribute, which store entry and which version its source
-     came from, and its globals.  Templates are *objects*: the cache holds references (heap ids), and
-     `cached_template.globals = ...` mutates the object every earlier holder also sees.
+     came from, and its globals.  Templates are *objects*: the cache holds references (heap ids); the code as
+     found did `cached_template.globals = ...` on a hit, mutating the object every earlier holder also sees
+     ([v_hit_mutates]); the repaired code never changes a cached object (a hit returns it, or a shallow copy
+     bound to other globals).  The heap keeps every object handed out so that it can be observed again later.
    - The specification of a caching loader is the non-caching loader [base_load] applied to the store as
      it is at the time of the request. *)
 From LiquidVerif Require Import Prelude Lru.
@@ -74,10 +76,18 @@ Inductive request :=
 Record variant := {
   v_async_swap : bool;      (* load_async passes `name` as the cache key and `cache_key` as the template name *)
   v_globals_if : bool;      (* `if globals: cached_template.globals = globals` (conditional) *)
-  v_async_rawname : bool    (* BaseLoader.load_async: name=name, where load has name=Path(full_name).name *)
+  v_async_rawname : bool;   (* BaseLoader.load_async: name=name, where load has name=Path(full_name).name *)
+  v_hit_mutates : bool      (* a cache hit rebinds `cached_template.globals` IN PLACE and returns the shared object;
+                               repaired: the cached object is never changed, a hit returns it only if it is already
+                               bound to the same globals, otherwise a shallow copy bound to this request's globals *)
 }.
-Definition fixed : variant := {| v_async_swap := false; v_globals_if := false; v_async_rawname := false |}.
-Definition as_found : variant := {| v_async_swap := true; v_globals_if := true; v_async_rawname := true |}.
+Definition fixed : variant :=
+  {| v_async_swap := false; v_globals_if := false; v_async_rawname := false; v_hit_mutates := false |}.
+Definition as_found : variant :=
+  {| v_async_swap := true; v_globals_if := true; v_async_rawname := true; v_hit_mutates := true |}.
+(* after the first round of repairs: globals rebound unconditionally, but still in place *)
+Definition rebinding : variant :=
+  {| v_async_swap := false; v_globals_if := false; v_async_rawname := false; v_hit_mutates := true |}.
 
 (* ---------- the store ---------- *)
 Definition skey := (str * option str)%type.
@@ -120,6 +130,7 @@ Definition with_globals (t : tmpl) (g : N * N) : tmpl :=
 
 (* Environment.make_globals: {**env.globals, **globals}; a dict is truthy iff it is not empty *)
 Definition make_globals (c : config) (g : N) : N * N := (env_g c, g).
+Definition same_globals (a b : N * N) : bool := N.eqb (fst a) (fst b) && N.eqb (snd a) (snd b).
 Definition truthy_globals (g : N * N) : bool := negb (N.eqb (fst g) 0) || negb (N.eqb (snd g) 0).
 
 (* namespace seen by a namespace-aware get_source: keyword arguments take priority over the context *)
@@ -228,10 +239,19 @@ Definition check_cache (v : variant) (c : config) (s : state) (key : str) (gl : 
             | OutOfFuel => (s, RInternal)
             end
           | Ok true =>
-            let cached' := if v_globals_if v
-                           then (if truthy_globals gl then with_globals cached gl else cached)
-                           else with_globals cached gl in
-            ({| st_cache := cache1; st_heap := (id, cached') :: st_heap s; st_store := st_store s |}, RT cached')
+            if v_hit_mutates v then
+              let cached' := if v_globals_if v
+                             then (if truthy_globals gl then with_globals cached gl else cached)
+                             else with_globals cached gl in
+              ({| st_cache := cache1; st_heap := (id, cached') :: st_heap s; st_store := st_store s |}, RT cached')
+            else if same_globals (t_globals cached) gl then
+              (* handed out as it is (the binding is repeated so that the newest heap binding is always the
+                 object just returned) *)
+              ({| st_cache := cache1; st_heap := (id, cached) :: st_heap s; st_store := st_store s |}, RT cached)
+            else
+              let id' := hfresh (st_heap s) in          (* copy.copy(cached_template); .globals = globals *)
+              ({| st_cache := cache1; st_heap := (id', with_globals cached gl) :: st_heap s; st_store := st_store s |},
+               RT (with_globals cached gl))
           end
       end
   end.
@@ -265,10 +285,19 @@ Definition check_cache_async (v : variant) (c : config) (s : state) (key : str) 
             | OutOfFuel => (s, RInternal)
             end
           | Ok true =>
-            let cached' := if v_globals_if v
-                           then (if truthy_globals gl then with_globals cached gl else cached)
-                           else with_globals cached gl in
-            ({| st_cache := cache1; st_heap := (id, cached') :: st_heap s; st_store := st_store s |}, RT cached')
+            if v_hit_mutates v then
+              let cached' := if v_globals_if v
+                             then (if truthy_globals gl then with_globals cached gl else cached)
+                             else with_globals cached gl in
+              ({| st_cache := cache1; st_heap := (id, cached') :: st_heap s; st_store := st_store s |}, RT cached')
+            else if same_globals (t_globals cached) gl then
+              (* handed out as it is (the binding is repeated so that the newest heap binding is always the
+                 object just returned) *)
+              ({| st_cache := cache1; st_heap := (id, cached) :: st_heap s; st_store := st_store s |}, RT cached)
+            else
+              let id' := hfresh (st_heap s) in          (* copy.copy(cached_template); .globals = globals *)
+              ({| st_cache := cache1; st_heap := (id', with_globals cached gl) :: st_heap s; st_store := st_store s |},
+               RT (with_globals cached gl))
           end
       end
   end.
@@ -305,6 +334,34 @@ Fixpoint run (v : variant) (c : config) (s : state) (rs : list request) : list r
   | [] => []
   | r :: rs' => let '(s', o) := step v c s r in o :: run v c s' rs'
   end.
+
+(* The objects handed out.  Every step that returns a template leaves that object as the NEWEST heap binding;
+   [run_h] records its id next to the response, [final] is the state after the whole history, and
+   [reobserve] reads a handed-out object again from a (later) heap. *)
+Definition handle (s' : state) (o : response) : option Z :=
+  match o with RT _ => match st_heap s' with (id, _) :: _ => Some id | [] => None end | _ => None end.
+
+Fixpoint run_h (v : variant) (c : config) (s : state) (rs : list request) : list (response * option Z) :=
+  match rs with
+  | [] => []
+  | r :: rs' => let '(s', o) := step v c s r in (o, handle s' o) :: run_h v c s' rs'
+  end.
+
+Fixpoint final (v : variant) (c : config) (s : state) (rs : list request) : state :=
+  match rs with
+  | [] => s
+  | r :: rs' => final v c (fst (step v c s r)) rs'
+  end.
+
+Definition reobserve (h : heap) (x : response * option Z) : response :=
+  match x with
+  | (RT _, Some id) => match hget id h with Some t => RT t | None => RInternal end
+  | (o, _) => o
+  end.
+
+(* every response of the history, observed again when the history is over *)
+Definition run_again (v : variant) (c : config) (s : state) (rs : list request) : list response :=
+  map (reobserve (st_heap (final v c s rs))) (run_h v c s rs).
 
 Definition init (c : config) (st : store) : state :=
   {| st_cache := Lru.empty (capacity c); st_heap := []; st_store := st |}.
@@ -361,8 +418,11 @@ Definition keys_injective_b (c : config) (rs : list request) : bool :=
 Record case := { c_cfg : config; c_store : store; c_reqs : list request }.
 Definition run_case (k : case) : list response := run fixed (c_cfg k) (init (c_cfg k) (c_store k)) (c_reqs k).
 (* the harness evaluates this one: a history outside the theorems' side condition shows up as a mismatch *)
+(* the responses as returned, followed by the same responses observed again at the end of the history *)
 Definition run_case_guarded (k : case) : list response :=
-  if keys_injective_b (c_cfg k) (c_reqs k) then run_case k else [RInternal].
+  if keys_injective_b (c_cfg k) (c_reqs k)
+  then run_case k ++ run_again fixed (c_cfg k) (init (c_cfg k) (c_store k)) (c_reqs k)
+  else [RInternal].
 Definition run_case_as_found (k : case) : list response :=
   run as_found (c_cfg k) (init (c_cfg k) (c_store k)) (c_reqs k).
 
